@@ -19,6 +19,10 @@
 //!                                        (holding the handle's write lock for a few hundred microseconds) when another makes
 //!                                        the call.  Every notification must reach the layer exactly once (the call waits).
 //!
+//!   lossycount <threads> <lines>         a lossy non-blocking writer of capacity 1 over a writer that is held shut; the threads
+//!                                        offer <lines> lines each together (almost all are dropped, at the same moments); then the
+//!                                        writer is let go and the guard dropped: written + dropped_lines() must equal offered.
+//!
 //! Output: `ok <stats>` or `fail <what>`.
 use std::collections::HashMap;
 use std::sync::atomic::{AtomicBool, AtomicUsize, Ordering};
@@ -424,6 +428,52 @@ fn reloadbusy(rounds: usize) -> String {
     }
 }
 
+struct HeldWriter { open: Arc<AtomicBool>, lines: Arc<AtomicUsize> }
+impl std::io::Write for HeldWriter {
+    fn write(&mut self, buf: &[u8]) -> std::io::Result<usize> {
+        while !self.open.load(Ordering::SeqCst) { std::thread::sleep(std::time::Duration::from_micros(200)); }
+        self.lines.fetch_add(buf.iter().filter(|b| **b == b'\n').count(), Ordering::SeqCst);
+        Ok(buf.len())
+    }
+    fn flush(&mut self) -> std::io::Result<()> { Ok(()) }
+}
+
+fn lossycount(threads: usize, lines: usize) -> String {
+    use std::io::Write;
+    let threads = threads.min(16);
+    let open = Arc::new(AtomicBool::new(false));
+    let written = Arc::new(AtomicUsize::new(0));
+    let (nb, guard) = tracing_appender::non_blocking::NonBlockingBuilder::default()
+        .lossy(true)
+        .buffered_lines_limit(1)
+        .finish(HeldWriter { open: open.clone(), lines: written.clone() });
+    let counter = nb.error_counter();
+    let bar = Arc::new(Spin::new(threads));
+    let hs: Vec<_> = (0..threads)
+        .map(|_| {
+            let bar = bar.clone();
+            let mut w = nb.clone();
+            std::thread::spawn(move || {
+                bar.wait();
+                for _ in 0..lines { let _ = w.write_all(b"x\n"); }
+            })
+        })
+        .collect();
+    let mut panicked = 0usize;
+    for h in hs { if h.join().is_err() { panicked += 1; } }
+    open.store(true, Ordering::SeqCst);
+    drop(nb);
+    drop(guard);
+    let offered = threads * lines;
+    let w = written.load(Ordering::SeqCst);
+    let d = counter.dropped_lines();
+    if w + d == offered && panicked == 0 {
+        format!("ok offered={} written={} dropped={}", offered, w, d)
+    } else {
+        format!("fail lines-neither-written-nor-counted-as-dropped offered={} written={} dropped={} unaccounted={} panicked={}", offered, w, d, offered as i64 - (w + d) as i64, panicked)
+    }
+}
+
 fn main() {
     std::panic::set_hook(Box::new(|_| {}));
     tv_harness::serve(|t| {
@@ -434,6 +484,7 @@ fn main() {
             "cloneshared" => cloneshared(n(1).max(2), n(2), n(3)),
             "recordshared" => recordshared(n(1).max(2), n(2)),
             "reloadbusy" => reloadbusy(n(1)),
+            "lossycount" => lossycount(n(1).max(2), n(2)),
             _ => "bad-op".to_string(),
         }
     });
